@@ -19,6 +19,7 @@ ROOTS = [
     ("acceptor", "awaiting_resend"), ("initiator", "awaiting_resend"),
     ("acceptor", "after_logout"), ("initiator", "after_eof"),
     ("acceptor", "after_integrity_drop"),
+    ("acceptor", "connected_app_sends_when_active"), ("initiator", "logon_sent_app_sends_when_active"),
 ]
 CLASSES = ("logon", "hb", "tr", "rr", "gf", "rs", "logout", "app", "custom")
 DEFECTS = ("ok_at", "ok_above", "low", "low_pd", "bs", "no49", "no56", "bad49", "bad56", "swapped", "no34")
@@ -36,6 +37,7 @@ def stimuli():
         out.append(("send", s))
     out.append(("eof",))
     out.append(("tick", 100))
+    out.append(("appdisc_eof",))
     return out
 
 
@@ -45,9 +47,11 @@ def build_root(role, name):
     mon = {"logon_done": False, "ever_connected": False}
     if name == "never_connected":
         return w, mon
+    if name.endswith("app_sends_when_active"):
+        w.c.send_on_state = "ACTIVE"
     w.connect()
     mon["ever_connected"] = True
-    if name in ("connected", "connected_no_logon", "logon_sent"):
+    if name in ("connected", "connected_no_logon", "logon_sent") or name.endswith("app_sends_when_active"):
         return w, mon
     w.logon()
     mon["logon_done"] = True
@@ -147,6 +151,19 @@ def apply(w, mon, stim, rootname, role):
         w.run()
     elif kind == "tick":
         w.advance(stim[1])
+    elif kind == "appdisc_eof":
+        # the application ends the session with a Logout while the transport is congested (drain() parks);
+        # meanwhile the peer closes: the read task sees EOF.  Then the congestion ends.
+        if w.reader is None or w.writer is None:
+            return "skip"
+        from asyncfix.connection import ConnectionState
+        w.writer.pause()
+        t = w.loop.create_task(c.disconnect(ConnectionState.DISCONNECTED_WCONN_TODAY, logout_message="bye"))
+        w.run()
+        w.reader.feed_eof()
+        w.run()
+        w.writer.resume()
+        w.run()
     a = snap(w)
     written = []
     if w.writer:
@@ -193,6 +210,12 @@ def apply(w, mon, stim, rootname, role):
                 return V("send_before_logon_accepted", stim[1], "until the Logon exchange has completed outbound sends other than Logon/Logout are refused with an error")
             if written or a["O"] != b["O"] or a["stored"] != b["stored"] or a["rows_out"] != b["rows_out"]:
                 return V("refused_send_consumed_number", stim[1], "refused with an error that consumes no sequence number")
+        return None
+    if kind == "appdisc_eof":
+        if not a["dead"]:
+            return V("app_disconnect_not_disconnected", "appdisc_eof", "the connection is disconnected")
+        if a["ndisc"] - b["ndisc"] != 1:
+            return V("disconnect_not_reported_once", "app_disconnect_then_eof", "reports the disconnect exactly once")
         return None
     if kind in ("eof", "tick"):
         if kind == "eof":
@@ -242,6 +265,8 @@ def apply(w, mon, stim, rootname, role):
         if cls == "logon":
             if not a["dead"]:
                 mon["logon_done"] = True
+            if c.connection_role.name == "ACCEPTOR" and b["state"] == "NETWORK_CONN_ESTABLISHED" and wtypes and wtypes[0] != "A" and any(t not in ("A", "5", "2", "4") for t in wtypes):
+                return V("application_frame_before_logon_reply", f"{dg}", "until the Logon exchange has completed outbound sends other than Logon/Logout are refused")
             return None
         if delivered:
             return V("delivered_before_logon", f"{dg}:{g}", "until the Logon exchange has completed no inbound message is handed to the application")
